@@ -114,6 +114,11 @@ func (c *summaryWalker) addRef(ref *sourcewalk.RefNode) {
 func (cc *summaryWalker) collectFileRefs(sourceFile *sourcedef_j5pb.SourceFile) error {
 	file := sourcewalk.NewRoot(sourceFile)
 
+	// Objects walked as part of a service or topic file (method requests and
+	// responses, topic messages) are generated into the sub-package file, they
+	// are not types of the main package.
+	subPackageDepth := 0
+
 	visitor := &sourcewalk.DefaultVisitor{
 		Property: func(node *sourcewalk.PropertyNode) error {
 			if node.Field.Ref != nil {
@@ -124,11 +129,15 @@ func (cc *summaryWalker) collectFileRefs(sourceFile *sourcedef_j5pb.SourceFile) 
 			return nil
 		},
 		Object: func(node *sourcewalk.ObjectNode) error {
-			cc.addExport(objectTypeRef(node))
+			if subPackageDepth == 0 {
+				cc.addExport(objectTypeRef(node))
+			}
 			return nil
 		},
 		Oneof: func(node *sourcewalk.OneofNode) error {
-			cc.addExport(oneofTypeRef(node))
+			if subPackageDepth == 0 {
+				cc.addExport(oneofTypeRef(node))
+			}
 			return nil
 		},
 		Enum: func(node *sourcewalk.EnumNode) error {
@@ -136,11 +145,29 @@ func (cc *summaryWalker) collectFileRefs(sourceFile *sourcedef_j5pb.SourceFile) 
 			for _, value := range node.Schema.Options {
 				valMap[node.Schema.Prefix+value.Name] = value.Number
 			}
-			cc.addExport(enumTypeRef(node))
+			if subPackageDepth == 0 {
+				cc.addExport(enumTypeRef(node))
+			}
+			return nil
+		},
+		ServiceFile: func(node *sourcewalk.ServiceFileNode) error {
+			subPackageDepth++
+			return nil
+		},
+		ServiceFileExit: func(node *sourcewalk.ServiceFileNode) error {
+			subPackageDepth--
 			return nil
 		},
 		Service: func(node *sourcewalk.ServiceNode) error {
 			cc.includeSubFile("service")
+			return nil
+		},
+		TopicFile: func(node *sourcewalk.TopicFileNode) error {
+			subPackageDepth++
+			return nil
+		},
+		TopicFileExit: func(node *sourcewalk.TopicFileNode) error {
+			subPackageDepth--
 			return nil
 		},
 		Topic: func(node *sourcewalk.TopicNode) error {
